@@ -190,7 +190,7 @@ class C11(Check):
     reference_models = ["ref/refext4.py superblock parse, tree_digest(), check() (every checksum under the new seed / UUID)"]
 
     def budget(self, tier):
-        return {"runs": 1500, "wall_s": 90} if tier == "quick" else {"runs": 30000, "wall_s": 1500}
+        return {"runs": 1500, "wall_s": 90} if tier == "quick" else {"runs": 12000, "wall_s": 1500}
 
     def generate(self, rng, tier):
         cfg = gen_config(rng, avoid=("mmp",))
